@@ -368,6 +368,15 @@ impl TCheck {
             TKind::C16 => "C16",
             TKind::C14 => "C14",
         };
+        if self.kind == TKind::C14 {
+            // "eviction always terminates" is part of C14: in its own programs a run that
+            // does not terminate is C14's violation
+            for v in viols.iter_mut() {
+                if v.prop == "C16" {
+                    *v = Violation::new("C14", "eviction-does-not-terminate", format!("[{}] {}", v.clause, v.detail));
+                }
+            }
+        }
         match std::env::var("VERIF_CLAIM_SIG") {
             Ok(sig) => out.absorb(viols, &|v| v.signature() == sig),
             Err(_) => out.absorb(viols, &|v| v.prop == me),
